@@ -468,6 +468,11 @@ func (c *connection) waitRead(n int) (err error) {
 	for c.inputBuffer.Len() < n {
 		switch c.status(closing) {
 		case poller:
+			// the data may have been delivered (followed by the peer's close) after the
+			// length check above: what the peer sent before closing is still readable
+			if c.inputBuffer.Len() >= n {
+				return nil
+			}
 			return Exception(ErrEOF, "wait read")
 		case user:
 			return Exception(ErrConnClosed, "wait read")
@@ -492,6 +497,10 @@ func (c *connection) waitReadWithTimeout(n int, timeout time.Duration) (err erro
 	for c.inputBuffer.Len() < n {
 		switch c.status(closing) {
 		case poller:
+			// same as in waitRead: re-check the length once the close has been seen
+			if c.inputBuffer.Len() >= n {
+				goto RET
+			}
 			// cannot return directly, stop timer first!
 			err = Exception(ErrEOF, "wait read")
 			goto RET
